@@ -989,9 +989,9 @@ func TestC09BLSAggregate(t *testing.T) {
 	defer vlib.Done()
 	selftest(t)
 	t.Run("KeyG1SigG2", func(t *testing.T) {
-		vlib.Check(t, vlib.N(220, 700), func(t *rapid.T) { checkBLSAggregate[sbls.G1](t, blsFmts[1], "KeyG1SigG2") })
+		vlib.Check(t, vlib.N(150, 600), func(t *rapid.T) { checkBLSAggregate[sbls.G1](t, blsFmts[1], "KeyG1SigG2") })
 	})
 	t.Run("KeyG2SigG1", func(t *testing.T) {
-		vlib.Check(t, vlib.N(220, 700), func(t *rapid.T) { checkBLSAggregate[sbls.G2](t, blsFmts[0], "KeyG2SigG1") })
+		vlib.Check(t, vlib.N(150, 600), func(t *rapid.T) { checkBLSAggregate[sbls.G2](t, blsFmts[0], "KeyG2SigG1") })
 	})
 }
